@@ -8,6 +8,7 @@
    - / and % are the floor operations (quotient rounded toward minus infinity, remainder with the
      sign of the divisor); division or remainder by zero is an error;
    - << and >> with a negative count are errors; _ shifts left by b for b >= 0 and right by -b otherwise;
+     a left shift by more than 65536 bits (64 Ki) is refused (error 'too-complex') rather than computed;
    - & ^ | are the bitwise operations on two's-complement integers of unbounded width; ! is |;
    - grouping by ( ), < > or ^x ... x;
    - literals: bare digits are octal, a trailing dot means decimal, 0x/0o/0b and ^X/^O/^B/^D state the
@@ -29,6 +30,9 @@ Definition all_unops : list unop := [UPlus; UNeg; UInv; UCompl].
 Definition all_binops : list binop := [BMul; BDiv; BMod; BAdd; BSub; BShl; BShr; BLsh; BAnd; BXor; BOr; BBang].
 
 Definition arith_error : res Z := Err ["arithmetic-error"].
+(* the largest left-shift count that is carried out; beyond it the assembler refuses *)
+Definition max_shift : Z := 65536.
+Definition too_complex : res Z := Err ["too-complex"].
 
 Definition sem_un (u : unop) (a : Z) : res Z :=
   match u with
@@ -44,9 +48,10 @@ Definition sem_bin (o : binop) (a b : Z) : res Z :=
   | BMod => if b =? 0 then arith_error else Ok (a mod b)        (* Z.modulo: sign of the divisor *)
   | BAdd => Ok (a + b)
   | BSub => Ok (a - b)
-  | BShl => if b <? 0 then arith_error else Ok (Z.shiftl a b)
+  | BShl => if b <? 0 then arith_error else if max_shift <? b then too_complex else Ok (Z.shiftl a b)
   | BShr => if b <? 0 then arith_error else Ok (Z.shiftr a b)   (* arithmetic: floor (a / 2^b) *)
-  | BLsh => if 0 <=? b then Ok (Z.shiftl a b) else Ok (Z.shiftr a (- b))
+  | BLsh => if 0 <=? b then (if max_shift <? b then too_complex else Ok (Z.shiftl a b))
+            else Ok (Z.shiftr a (- b))
   | BAnd => Ok (Z.land a b)
   | BXor => Ok (Z.lxor a b)
   | BOr | BBang => Ok (Z.lor a b)
